@@ -92,7 +92,7 @@ TEXT.update({
     },
     'C10': {
         'level': 'seeded exploration of lookup histories (every key form, 0-700 distinct keys so that the 100-entry '
-                 'and 500-entry caches fill and evict, cross-package insertions into the same cache, restarts); '
+                 'and 500-entry caches fill and evict, cross-package insertions into the same cache, restarts, refused set_alias calls with a taken name); '
                  'every read/write is compared with the harness own name->position table and with a cold twin '
                  'indexer (history independence).',
         'design_ref': '5/C10', 'note': _STREAM_NOTE,
@@ -100,7 +100,7 @@ TEXT.update({
     },
     'C11': {
         'level': 'seeded exploration of interleavings of view writes/reads (mol/mass/vol, 9 units of measure) with '
-                 'T, P, phase(s), link/unlink, proxy, copy_like, restart; after every step mass = mol*MW, vol = '
+                 'T, P, phase(s), link/unlink, refused links between stream classes, proxy, copy_like, restart; after every step mass = mol*MW, vol = '
                  'mol*1000*V_i(phase,T,P) (V_i from the Chemical objects directly) and the totals are checked on '
                  'every touched stream and every stream that may share data with it.',
         'design_ref': '5/C11', 'note': _STREAM_NOTE,
@@ -114,8 +114,7 @@ TEXT.update({
         'technique': 'deterministic simulation: seeded histories + snapshot refinement oracle',
     },
     'C13': {
-        'level': 'seeded exploration of copy/proxy/flow_proxy/link_with (all flag subsets)/unlink/pickle histories '
-                 'with mutations by other owners in between; refinement against an explicit alias graph (who '
+        'level': 'seeded exploration of copy/proxy/flow_proxy/link_with (all flag subsets)/unlink/pickle histories (including links that must be refused and copies of per-phase views) with mutations by other owners in between; refinement against an explicit alias graph (who '
                  'shares flows, T/P, phase with whom): after every operation every stream outside the sharing '
                  'closure of the written streams is unchanged and everything advertised as shared is equal.',
         'design_ref': '5/C13', 'note': _STREAM_NOTE + '; re-linking a stream that is bound to a proxy is not generated',
@@ -141,7 +140,7 @@ TEXT.update({
         'level': 'seeded exploration of energy-balanced mixes (receiver among the inlets, proxies, Q), separate_out and '
                  'H / h / S assignments on liquid and gas streams inside 250-500 K, with model and solver failures '
                  'injected INSIDE the temperature solve so that the setters\' phase-flip recovery and mix_from\'s '
-                 'fallback run; enthalpy/entropy are recomputed through the mixture model on dense rows (never the '
+                 'fallback run (faults may persist for the whole operation so that the library retry fails too), plus refused assignments of unreachable energies (bad_energy) and gas streams of a Peng-Robinson package (pressure-dependent enthalpy, per-call mixture state); enthalpy/entropy are recomputed through the mixture model on dense rows (never the '
                  'stream memo) and compared within bounds calibrated on fresh objects (tools/calibrate_c02.py).',
         'design_ref': '5/C02', 'note': _STREAM_NOTE + '; tolerances: H,h 100 x C*T_tol, S 2.5e4 x C*T_tol/T (10 x calibration max)',
         'technique': 'deterministic simulation: fault injection in solver/model seams + defining-equation oracle',
@@ -149,7 +148,7 @@ TEXT.update({
     'C05': {
         'level': 'seeded exploration of reactor histories: reused and edited reaction objects (single / parallel / '
                  'series / system, mol and wt basis, phase-tagged, defined on a package with another chemical order) '
-                 'applied to shared streams with warm mass/volume views, proxies, restarts, and to bare arrays; '
+                 'applied to shared streams with warm mass/volume views, proxies, restarts, and to bare arrays; copies of reactions and of set items edited in place afterwards (derive_rxn), exactly stoichiometric feeds at full conversion (stoich_feed: the negligible-negative clean-up branch, judged strictly < 0); '
                  'dense reference arithmetic, mass and (C,H,O) balance with the harness own atom table, over-conversion '
                  'must raise, package and mass view restored after each normal return.',
         'design_ref': '5/C05', 'note': _COMMON_NOTE + '; nothing is demanded after a raising reaction (statistics only)',
